@@ -214,6 +214,8 @@ def generate(rng, quick):
     for _ in range(8 * k):
         n = rng.choice([3, 4, 4, 5, 6, 7])
         sc.append(forks(rng, n, rng.randrange(2, 6), byz=0.3, restart=rng.choice(["none", "mixed", "shadow"])))
+    for _ in range(3 * k):
+        sc.append(gc_scenario(rng, rng.choice([3, 4, 5, 7]), rng.randrange(10, 30)))
     for _ in range(4 * k):
         sc.append(network(rng, 4, rng.randrange(16, 40), byz_count=1, inflate=rng.random() < 0.5))
     for _ in range(2 * k):
